@@ -538,6 +538,7 @@ type caseRec struct {
 }
 
 func TestCheck(t *testing.T) {
+	vk.UseT(t)
 	r := vk.Start("C18", "model_checking", 60*time.Second, 6*time.Minute)
 	if r.Replay != "" {
 		replay(r)
